@@ -37,6 +37,8 @@ type Solver struct {
 	Stats   SolverStats
 	log     io.Writer
 	dead    bool
+	seq     int // echo markers delimit the output of every query: a stray (error ...) line can never be taken for, or shift, an answer
+	Errors  int
 }
 
 func solverArgv(kind string, timeoutMs int) []string {
@@ -253,16 +255,32 @@ func (s *Solver) Check() Result {
 		return Unknown
 	}
 	t0 := time.Now()
+	s.seq++
+	marker := fmt.Sprintf("vt-done-%d", s.seq)
 	s.send("(check-sat)")
+	s.send("(echo \"" + marker + "\")")
 	res := Unknown
 	done := make(chan struct{})
-	var line string
+	var answer string
+	sawError := ""
 	var err error
 	go func() {
+		// everything up to the marker belongs to this query (and to the commands sent since the previous one)
 		for {
+			var line string
 			line, err = s.readLine()
-			if err != nil || line != "" {
+			if err != nil || strings.Contains(line, marker) {
 				break
+			}
+			switch {
+			case line == "sat" || line == "unsat" || line == "unknown" || line == "timeout":
+				if answer == "" {
+					answer = line
+				}
+			case strings.HasPrefix(line, "(error"):
+				if sawError == "" {
+					sawError = line
+				}
 			}
 		}
 		close(done)
@@ -276,21 +294,20 @@ func (s *Solver) Check() Result {
 		s.dead = true
 		err = fmt.Errorf("hard timeout")
 	}
-	if err != nil {
+	switch {
+	case err != nil:
 		s.dead = true
-		res = Unknown
-	} else {
-		switch {
-		case line == "sat":
-			res = Sat
-		case line == "unsat":
-			res = Unsat
-		case strings.HasPrefix(line, "(error"):
-			fmt.Fprintln(os.Stderr, "solver error:", line)
-			res = Unknown
-		default:
-			res = Unknown
-		}
+	case sawError != "":
+		// some command of this query (push, a definition, an assertion, check-sat itself) was rejected or
+		// cancelled: the session no longer holds what we think it holds. Inconclusive, and start over.
+		fmt.Fprintln(os.Stderr, "solver error:", sawError)
+		s.Errors++
+		s.cmd.Process.Kill()
+		s.dead = true
+	case answer == "sat":
+		res = Sat
+	case answer == "unsat":
+		res = Unsat
 	}
 	dt := time.Since(t0).Seconds()
 	s.Stats.Queries++
@@ -349,9 +366,29 @@ func (s *Solver) Model(vars []*Term) map[string]uint64 {
 		}
 		sb.WriteString("))")
 		s.send(sb.String())
-		// read balanced s-expression
-		txt := s.readSexp()
-		parseValues(txt, known[i:j], m)
+		s.seq++
+		marker := fmt.Sprintf("vt-done-%d", s.seq)
+		s.send("(echo \"" + marker + "\")")
+		var txt strings.Builder
+		for {
+			line, err := s.out.ReadString('\n')
+			if err != nil {
+				s.dead = true
+				break
+			}
+			if strings.Contains(line, marker) {
+				break
+			}
+			txt.WriteString(line)
+		}
+		if strings.Contains(txt.String(), "(error") {
+			fmt.Fprintln(os.Stderr, "solver error in get-value:", strings.TrimSpace(txt.String())[:min(200, len(strings.TrimSpace(txt.String())))])
+			s.Errors++
+			s.cmd.Process.Kill()
+			s.dead = true
+			return m
+		}
+		parseValues(txt.String(), known[i:j], m)
 	}
 	return m
 }
